@@ -532,6 +532,14 @@ def xray2d_weights(c, angle):
     return inds, w, Px
 
 
+def xray2d_width(c, angle):
+    """width of the boxcar footprint of a pixel at this angle"""
+    sh, dx, x0, ny, y0 = xray2d_geometry(c)
+    u = (math.cos(angle), math.sin(angle))
+    d1, d2 = abs(dx[0] * u[0] + dx[1] * u[1]), abs(dx[0] * u[0] - dx[1] * u[1])
+    return (max(d1, d2) + min(d1, d2)) / 2
+
+
 def r_XRayTransform2D(c):
     """documented boxcar model: pixel p contributes w to bin I and 1 - w to bin I + 1, each when that bin is on the
     detector (the integral of the pixel's boxcar over the bin)"""
